@@ -115,6 +115,10 @@ let parse_enum () = match next () with
   | "_" -> None
   | "e" -> let ns = next_opt () in let en = next_bytes () in Some (ns, en)
   | s -> failwith ("enum " ^ s)
+let parse_ser () = match next () with
+  | "_" -> None
+  | "s" -> Some (next_bytes ())
+  | s -> failwith ("serial " ^ s)
 let parse_col_s () =
   let n = next_bytes () in
   let e = parse_enum () in
@@ -154,8 +158,9 @@ let parse_sub () = match next () with
   | "MC" ->
     let n = next_bytes () in
     let fe = parse_enum () in let te = parse_enum () in
-    let ty = next_bool () in let ser = next_bool () in let oth = next_bool () in let cm = next_bool () in
-    ModifyColumn (n, fe, te, ty, ser, oth, cm)
+    let fs = parse_ser () in let ts = parse_ser () in
+    let ty = next_bool () in let oth = next_bool () in let cm = next_bool () in
+    ModifyColumn (n, fe, te, fs, ts, ty, oth, cm)
   | "MI" -> let a = parse_idx () in let b = parse_idx () in let pa = next_bool () in let cm = next_bool () in ModifyIndex (a, b, pa, cm)
   | "MF" -> let a = parse_fk () in let b = parse_fk () in ModifyForeignKey (a, b)
   | "APK" -> AddPrimaryKey | "DPK" -> DropPrimaryKey | "MPK" -> ModifyPrimaryKey
@@ -178,11 +183,13 @@ let do_skel id =
   let q = next_opt () in
   let n = next_int () in
   let cs = times n parse_change_s in
-  let lines = Stdlib.List.map (fun ((rev, head), chains) ->
+  let show chains =
     let ch = Stdlib.List.map (fun c -> String.concat "." (Stdlib.List.map (fun b -> hex (string_of_bytes b)) c)) chains in
-    Printf.sprintf "%s %s %s %s" id (if rev then "r" else "c")
+    if ch = [] then "-" else String.concat "," ch in
+  let lines = Stdlib.List.map (fun (((rev, head), chains), lits) ->
+    Printf.sprintf "%s %s %s %s %s" id (if rev then "r" else "c")
       (String.concat "_" (String.split_on_char ' ' (string_of_bytes head)))
-      (if ch = [] then "-" else String.concat "," ch)) (plan_chains pg q cs) in
+      (show chains) (show lits)) (plan_obs pg q cs) in
   Stdlib.List.iter print_endline (Stdlib.List.sort compare lines)
 
 (* ---- the dialect's reader of a quoted identifier chain (Qual/Lexq.v lex_chain) *)
